@@ -185,6 +185,14 @@ def runtime_battery():
     Sb = [("in", "CLK", 1, 0), ("bidir", "S", 4, "Z"), ("out", "Y", 8)]
     for src in ("CLK S_out Y\n0 C 1\n", "S S_out\n1 C\n", "S_out\nC\n", "CLK S S_out Y\nC Z C X\n", "S_out CLK\nC C\n"):
         b.append(Scenario(src, Sb, default_answer=[0, 0], max_rows=20, note="C in the _out column of a bidirectional signal: rejected at bind time, never a panic"))
+    # seventh round: an expression error raised inside a loop / repeat / nested body, the caller keeps iterating
+    Se = [("in", "A", 8, 0), ("out", "Y", 8)]
+    for src in ("A Y\nloop(i,4)\n(8 / (i - 1)) X\nend loop\n9 X\n", "A Y\nrepeat(3) (4 % (n - 1)) X\n7 X\n",
+                "A Y\nloop(i,2)\nloop(j,3)\n(6 / (j - i)) X\nend loop\nend loop\n1 X\n",
+                "A Y\nloop(i,3)\nlet t = 5 / (1 - i);\n(t) X\nend loop\n2 X\n",
+                "A Y\nlet k = 0;\nwhile(k < 3)\nlet k = k + 1;\nloop(i,2)\n(9 / (k - 2)) X\nend loop\nend while\n",
+                "A Y\nloop(i,3)\n(random(i)) X\nend loop\n3 X\n", "A Y\nloop(i,2)\n(signExt(4, i)) X\nend loop\n"):
+        b.append(Scenario(src, Se, default_answer=[0], stop_on_err=False, max_rows=40, note="error items from inside a loop body, iteration continued"))
     # sixth round: the same TestCase value run before by drivers with other answer layouts (longer, foreign signals first)
     So = [("in", "A", 1, 0), ("out", "Y", 8), ("out", "Q", 8)]
     for pre, lay in (([["?0", "Y"]], ["Y"]), ([["?0", "?1", "Q", "Y"]], ["Q", "Y"]), ([["Y", "Q"], ["Q"]], ["Q"]), ([["?0", "Q"]], ["Q"])):
